@@ -4,6 +4,7 @@ package images
 import (
 	"crypto/sha512"
 	"fmt"
+	oabi "github.com/google/gce-tcb-verifier/ovmf/abi"
 	"sync"
 	"testing"
 
@@ -45,8 +46,24 @@ func mk(name string, size int, salt byte, tdx bool) *Image {
 	return &Image{Name: name, Bytes: b, Digest: sha512.Sum384(b), TDX: tdx}
 }
 
-// Pool returns the image pool: four small SNP-only images and two 2 MiB images that also carry
-// TDVF metadata.
+// mkCaa builds a small SNP-only image whose SEV metadata also lists an SVSM calling-area section
+// (section kind 4, which the launch-digest code takes as a zero page).
+func mkCaa(name string, salt byte) *Image {
+	b := make([]byte, 0x1000)
+	copy(b[0x800:], []byte("LGTMLGTMLGTMLGTM"))
+	copy(b[0xa00:], []byte("LGTMLGTMLGTMLGTM"))
+	for i := 0; i < 64; i++ {
+		b[0x400+i] = salt + byte(i)
+	}
+	sections := append(fakeovmf.DefaultSnpSections(), oabi.SevMetadataSection{Address: 0xff005000, Length: oabi.PageSize, Kind: oabi.SevSvsmCaaSection})
+	if err := fakeovmf.InitializeSevGUIDTable(b, oabi.FwGUIDTableEndOffset, fakeovmf.SevEsAddrVal, sections); err != nil {
+		panic(err)
+	}
+	return &Image{Name: name, Bytes: b, Digest: sha512.Sum384(b)}
+}
+
+// Pool returns the image pool: four small SNP-only images, two 2 MiB images that also carry
+// TDVF metadata, and one SNP-only image with an SVSM calling-area section.
 func Pool() []*Image {
 	once.Do(func() {
 		pool = []*Image{
@@ -56,6 +73,7 @@ func Pool() []*Image {
 			mk("fw-d.fd", 0x10000, 4, false),
 			mk("fw-tdx-a.fd", 0x200000, 5, true),
 			mk("fw-tdx-b.fd", 0x200000, 6, true),
+			mkCaa("fw-caa.fd", 7),
 		}
 	})
 	return pool
